@@ -106,11 +106,19 @@ KEY_STYLES = {
     "float": (lambda k: float(k) + 0.0, lambda x: int(x)),
     "bigint": (lambda k: int("1000000") + k, lambda x: x - 1000000),
 }
-_KEYS = {"style": "int"}
+_KEYS = {"style": "int", "pool": {}, "n": 0, "seed": 0}
 
 
 def mk(k):
-    return KEY_STYLES[_KEYS["style"]][0](k)
+    """One of two equal-but-distinct objects kept per key for the run (seeded choice): an operation may
+    use the very object an earlier one used, or its equal twin."""
+    pool = _KEYS["pool"].get(k)
+    if pool is None:
+        make = KEY_STYLES[_KEYS["style"]][0]
+        pool = _KEYS["pool"][k] = [make(k), make(k)]
+    _KEYS["n"] += 1
+    x = (_KEYS["seed"] + _KEYS["n"]) * 2654435761 & 0xFFFFFFFF
+    return pool[(x >> 13) & 1]
 
 
 def unk(x):
@@ -309,13 +317,14 @@ class C24:
 
     # -- execution ---------------------------------------------------------------
     def run(self, sc):
-        _KEYS["style"] = sc.get("key_style", "int")
+        _KEYS.update(style=sc.get("key_style", "int"), pool={}, n=0,
+                     seed=sc.get("sched_seed", len(sc.get("ops", ()))))
         try:
             if sc["config"] == "seq":
                 return self._run_seq(sc)
             return self._run_conc(sc)
         finally:
-            _KEYS["style"] = "int"
+            _KEYS.update(style="int", pool={}, n=0)
 
     def _run_seq(self, sc):
         res = new_result()
